@@ -45,6 +45,8 @@ def run(chk, ctx) -> None:
     from . import c05
     c05.run(Refile(chk, {r: 'C02.strongest' for r in ('C05.exhaustive', 'C05.polarity', 'C05.source', 'C05.badugi', 'C05.errors',
                                                       'C05.counts', 'C05.helpers', 'C05.none')}), ctx)
+    from .c04 import _operators
+    _operators(Refile(chk, {'C04.operators': 'C02.strongest'}, only=lambda r, c: c.startswith('Hand')), ctx)
     chk.floor('C02.strongest', 40)
     # only tabled cards take part in the showdown: the face-up flags of a partial show cover exactly the named cards
     from .cover import showing_components
